@@ -168,7 +168,7 @@ func cmdCheck(args []string) int {
 			retry = append(retry, o)
 		}
 	}
-	if len(retry) > 0 && len(retry) <= 40 && *tier == "quick" && os.Getenv("EVYVC_FAST") == "" {
+	if len(retry) > 0 && len(retry) <= 120 && *tier == "quick" && os.Getenv("EVYVC_FAST") == "" {
 		discharge(retry, work, "retry", 5)
 	}
 	aggs := aggregate(all)
